@@ -51,6 +51,7 @@ class C05(Monitor):
         if self.manual[ep] or trk.dead:
             return
         auto = (s.kind == 'recv') or (s.kind == 'call' and s.op == 'acknowledge_received_data')
+        zero_after = set()
         for f in s.out_frames:
             if f.type != C.WINDOW_UPDATE or not auto:
                 continue
@@ -69,10 +70,12 @@ class C05(Monitor):
                 st = trk.get(f.sid)
                 at_max = st is None or st.recv_win >= trk.mine[C.S_INITIAL_WINDOW_SIZE] or bool(trk.sent_settings)
             if at_max:
-                cr[f.sid] = 0
+                zero_after.add(f.sid)   # (what is left over is dropped once all updates of this step are accounted for)
             elif cr[f.sid] > 0 and inc < have - (added if f.sid == 0 else 0):
                 self.fail('under-credit', 'WINDOW_UPDATE hands back less than was acknowledged although the window stays below its maximum', s,
                           sid=f.sid, inc=inc, acknowledged=have)
+        for sid_ in zero_after:
+            cr[sid_] = 0
         # nothing is owed while a window is at its maximum (the library drops such credit)
         if trk.conn_recv >= 65535:
             cr[0] = 0
